@@ -197,6 +197,51 @@ impl Agg {
     }
 }
 
+/// Name of the source item (`impl .. for T` / `fn f`) that encloses
+/// `file:line` in the pallas tree; used to tell apart panic sites that share a
+/// file and a message without depending on line numbers.
+fn enclosing_item(location: &str) -> Option<String> {
+    let (file, line) = location.rsplit_once(':')?;
+    let line: usize = line.parse().ok()?;
+    let path = if file.starts_with('/') { PathBuf::from(file) } else { crate::artefacts::repo_root().join(file) };
+    let src = std::fs::read_to_string(path).ok()?;
+    let lines: Vec<&str> = src.lines().collect();
+    let mut func: Option<String> = None;
+    for i in (0..line.min(lines.len())).rev() {
+        let l = lines[i];
+        let t = l.trim_start();
+        let indent = l.len() - t.len();
+        let t = t.trim_start_matches("pub(crate) ").trim_start_matches("pub ").trim_start_matches("const ").trim_start_matches("async ");
+        if func.is_none() && t.starts_with("fn ") {
+            func = Some(t[3..].split(['(', '<']).next().unwrap_or("").trim().to_string());
+            if indent == 0 {
+                return func;
+            }
+        }
+        if indent == 0 && t.starts_with("impl") {
+            let head = t.trim_end_matches('{').trim();
+            let ty = head.rsplit(" for ").next().unwrap_or(head).split(" where").next().unwrap_or("").trim();
+            let ty = if head.contains(" for ") { ty.to_string() } else { head.split_whitespace().last().unwrap_or("").to_string() };
+            return Some(match func {
+                Some(f) => format!("{ty}::{f}"),
+                None => ty,
+            });
+        }
+    }
+    func
+}
+
+/// Final fingerprint of a panic finding keyed `"<site> @<file:line>"`.
+fn defect_fingerprint(key: &str) -> String {
+    match key.rsplit_once(" @") {
+        Some((site, loc)) => match enclosing_item(loc) {
+            Some(item) => format!("{site} [in {item}]"),
+            None => site.to_string(),
+        },
+        None => key.to_string(),
+    }
+}
+
 #[derive(Clone, Copy, Debug)]
 struct Batch {
     unit: usize,
@@ -529,7 +574,20 @@ pub fn run(ctx: Ctx) -> ! {
         }
         done.store(true, Ordering::SeqCst);
     });
-    let agg = Arc::try_unwrap(agg).ok().unwrap().into_inner().unwrap();
+    let mut agg = Arc::try_unwrap(agg).ok().unwrap().into_inner().unwrap();
+    // panic findings arrive keyed by site + line; regroup them by defect
+    for which in [0, 1] {
+        let src = std::mem::take(if which == 0 { &mut agg.viol } else { &mut agg.diag });
+        let mut dst = BTreeMap::new();
+        for (k, g) in src {
+            Agg::add(&mut dst, defect_fingerprint(&k), g.count, g.first, g.entry, g.message, g.location);
+        }
+        if which == 0 {
+            agg.viol = dst;
+        } else {
+            agg.diag = dst;
+        }
+    }
     let sweep_s = t0.elapsed().as_secs_f64();
 
     if only.is_some() {
@@ -602,7 +660,7 @@ pub fn run(ctx: Ctx) -> ! {
                 pr.close();
                 out
             } else {
-                shrink(input.clone(), &mut |b| matches!(world.probe(g.entry, b), Res::Panic(p) if p.site == *fp), &mut budget)
+                shrink(input.clone(), &mut |b| matches!(world.probe(g.entry, b), Res::Panic(p) if p.location == g.location), &mut budget)
             };
             let case = json!({
                 "entry_point": world.cat[g.entry].name,
@@ -819,7 +877,7 @@ fn replay(ctx: &Ctx, world: &World, spawner: &Spawner, scratch: &Path, path: &Pa
         Err(sig) => ctx.violation(format!("abort:{sig}:{name}"), format!("{name}: worker killed by {sig}"), case.clone()),
         Ok(o) => {
             if let Some(p) = o.get("panic") {
-                ctx.violation(p["site"].as_str().unwrap_or("").to_string(), format!("{name} panicked: {} at {}", p["message"], p["location"]), case.clone());
+                ctx.violation(defect_fingerprint(&format!("{} @{}", p["site"].as_str().unwrap_or(""), p["location"].as_str().unwrap_or(""))), format!("{name} panicked: {} at {}", p["message"], p["location"]), case.clone());
             }
         }
     }
